@@ -127,6 +127,7 @@ type Exec struct {
 	lastNow  *Term
 	vfs      map[string]*vfsFile // in-memory file system (intrinsics_vfs.go)
 	vfsH     map[*Object]*vfsHandle
+	vfsDirs  map[string]bool
 	vfsErr   Value
 	strCache map[string]*Object
 	goq      []func()
